@@ -204,3 +204,27 @@ def insertm_ensures(m):
         ('fifo_lru_oldest_first', ['C07'], '(!%s && (old(self).policy is FIFO || old(self).policy is LRU)) ==> is_suffix(final(self).order@, %s)' % (OVERSIZE, Q1)),
         ('bound', ['C04'], '(old(self).limit is Some && old(self).limit->Some_0 >= 1 && old(self).order@.len() <= old(self).limit->Some_0) ==> final(self).order@.len() <= old(self).limit->Some_0'),
     ]
+
+
+def memloop_spec(m, o, K='s2s(key)'):
+    """Invariant of the evict-until-fits loop of the sync insert_with_memory (m: store field, o: queue guard local,
+    K: the key as a String in the scope of the loop)."""
+    MS = 'self.%s@' % m
+    M0 = 'old(self).%s@' % m
+    REST = 'mem_total(%s.remove(%s), rm1(old(self).order@, %s)) + value.mem()' % (M0, K, K)
+    return dict(
+        invariant=[
+            ('wf', 'wf(%s, %s@)' % (MS, o)),
+            ('cfg', 'self.limit == old(self).limit && self.max_memory == old(self).max_memory && self.policy == old(self).policy && self.ttl == old(self).ttl '
+                    '&& self.frequency_weight == old(self).frequency_weight && self.stats == old(self).stats && self.max_memory == Some(max_mem)'),
+            ('counters', 'freq_ok(%s)' % MS),
+            ('pre_facts', 'wf(%s, old(self).order@) && %s <= usize::MAX' % (M0, REST)),
+            ('submap', 'forall|x: String| #[trigger] %s.contains_key(x) ==> (if x == %s { %s[x].value == value && %s[x].frequency == 0 } else { %s.contains_key(x) && %s[x] == %s[x] })'
+             % (MS, K, MS, MS, M0, MS, M0)),
+            ('total_bounded', 'mem_total(%s, %s@) <= %s' % (MS, o, REST)),
+            ('no_needless', '%s <= max_mem ==> %s@ == touch(old(self).order@, %s) && %s.dom() == %s.dom().insert(%s)' % (REST, o, K, MS, M0, K)),
+            ('oldest_first', '(self.policy is FIFO || self.policy is LRU) ==> is_suffix(%s@, touch(old(self).order@, %s))' % (o, K)),
+            ('shrinks', '%s@.len() <= touch(old(self).order@, %s).len()' % (o, K)),
+        ],
+        ensures=[('fits', 'mem_total(%s, %s@) <= max_mem' % (MS, o))],
+        decreases='%s@.len()' % o)
